@@ -76,7 +76,7 @@ def totality(rep, f, rule, entry_idents, label, min_sites=0, kinds=None, min_ent
             sites, tree = panics.analyse(f, b)
             read_in_context |= panics.analyse.last_covered
         except vg.Unsupported as u:
-            if kinds == ("panic",) and b.kind == "Closure" and not has_explicit_panic(b):
+            if kinds is not None and b.kind == "Closure" and not has_explicit_panic(b):
                 continue      # a closure handed to foreign code that contains no assertion / expect / unwrap of its own: nothing to discharge
             rep.fail(rule, b.ident(), "unanalysable:" + b.ident(), "cannot analyse %s for panic sites: %s" % (b.ident(), u), where=H.where(b))
             continue
@@ -84,7 +84,7 @@ def totality(rep, f, rule, entry_idents, label, min_sites=0, kinds=None, min_ent
             rep.fail(rule, b.ident(), "unanalysable:" + b.ident(), "analysis of %s did not terminate" % b.ident(), where=H.where(b))
             continue
         for s in sites:
-            if kinds is not None and s.kind not in kinds:
+            if kinds is not None and ((s.kind not in kinds) if kinds[0] != "!" else (s.kind in kinds[1:])):
                 continue
             dg = norm.digest(s.cond)[:10] if s.cond is not None else "-"
             key = "%s:%s:%s:%s" % (s.func, s.kind, s.detail, dg)
@@ -148,6 +148,8 @@ def has_explicit_panic(b):
             t = blk["t"]
             if t.get("dbg"):
                 return True
+            if t["k"] == "assert" and not blk.get("cleanup"):
+                return True      # an overflow / bounds / division check: the form rules read on as if it passes
             if t["k"] == "call" and not blk.get("cleanup"):
                 if t.get("t") is None:
                     return True
@@ -159,9 +161,10 @@ def has_explicit_panic(b):
 OWN_TOTALITY = {"C09", "C13", "C14", "C15", "C16", "C17", "C18"}
 
 def assumed_assertions(ctx, rep, covered, prop):
-    """RD: the form rules read a function as if its assertions hold and its expect / unwrap calls succeed; when the bodies a
-    property evaluated contain such sites, every one of them has to be discharged by the panic-site analysis, entered from the
-    public functions among those bodies (the properties with a totality rule of their own do this there)"""
+    """RD: the form rules read a function as if its assertions hold, its expect / unwrap calls succeed and its overflow / bounds /
+    division checks pass; when the bodies a property evaluated contain such sites, every one of them has to be discharged by
+    the panic-site analysis, entered from the public functions among those bodies (the properties with a totality rule of their
+    own do this there).  Calls into foreign code that may panic for reasons of its own (the fmt machinery) are not in scope."""
     if prop in OWN_TOTALITY:
         return
     f = ctx.facts("A")
@@ -172,4 +175,4 @@ def assumed_assertions(ctx, rep, covered, prop):
     if not any(has_dbg(b) for b in cov):
         return
     entries = sorted({b.ident() for b in cov if b.kind != "Closure" and (b.reachable or b.trait is not None) and f.get(b.ident()) is not None})
-    totality(rep, f, "RD", entries[:60], "functions with assertions / expect / unwrap", min_sites=0, kinds=("panic",))
+    totality(rep, f, "RD", entries[:60], "functions with assertions / expect / unwrap", min_sites=0, kinds=("!", "call"))
